@@ -170,6 +170,12 @@ def handleRw (st : Option RwState) (cmd : List String) : Option RwState × Strin
           match s.pending with
           | some rd => rwRes s (s.n.storageWrite rd) s.pending "ok"
           | none => (some s, "invalid")
+        -- `write take`: the application moved the entries out of the Ready before persisting them; what is written and
+        -- what `advance*` does afterwards must not depend on it
+        | "write", ["take"] =>
+          match s.pending with
+          | some rd => rwRes s (s.n.storageWrite rd) s.pending "ok"
+          | none => (some s, "invalid")
         | "advance_append_async", [] =>
           match s.pending with
           | some rd => rwRes s (s.n.advanceAppendAsync rd) none "ok"
